@@ -8,7 +8,7 @@ GRAPH = ["TraceGraph.remove_with_descs", "TraceGraph.get_nodes_with", "TraceGrap
 VALUES = ["CellsImpl.on_clear_trace", "CellsImpl.has_node", "CellsImpl.clear_value_at", "CellsImpl.clear_all_values",
           "CellsImpl._store_value", "Impl.get_property", "CellsImpl.set_value_from_key", "CellsImpl.get_value_from_key",
           "CellsImpl.on_eval_formula", "key_to_node", "node_has_key"]
-BIG = {"CallStack.pop": 8, "CallStack.rollback": 4, "NonThreadedExecutor.eval_node": 4, "CellsImpl.set_value_from_key": 6,
+BIG = {"UserCellsImpl.on_set_property": 6, "BaseSpaceImpl.on_delete": 3, "CallStack.pop": 8, "CallStack.rollback": 4, "NonThreadedExecutor.eval_node": 4, "CellsImpl.set_value_from_key": 6,
        "CellsImpl.on_eval_formula": 2, "CellsImpl.clear_all_values": 3}
 
 TB_EXEC = ["rely contract of user formulas (FormulaRun / NodeObj.on_eval_formula: Stable + A-PURE) — assumed, monitored by the bounded driver",
@@ -25,14 +25,19 @@ def register(R, P):
     prop("C01", EXECUTOR + ["CellsImpl.on_eval_formula", "CellsImpl._store_value", "CellsImpl.has_node", "CellsImpl.get_value_from_key",
                             "key_to_node", "Impl.get_property"])
     prop("C02", GRAPH + ["CallStack.pop", "NonThreadedExecutor.eval_node", "CellsImpl.on_clear_trace", "CellsImpl.clear_value_at",
-                         "CellsImpl.clear_all_values", "CellsImpl.on_namespace_change", "ReferenceImpl.on_inherit", "node_has_key"])
+                         "CellsImpl.clear_all_values", "CellsImpl.on_namespace_change", "UserCellsImpl.on_set_property", "ReferenceImpl.on_inherit", "UserCellsImpl.on_set_property", "node_has_key"])
     prop("C05", EXECUTOR + ["CellsImpl._store_value", "Impl.get_property", "CellsImpl.on_eval_formula"],
          assumptions=["interpreter C-stack depth ('chains shorter than the limit evaluate without crashing') is not decided by any contract; probed by the bounded driver"])
     prop("C06", VALUES + ["TraceGraph.remove_with_descs", "TraceGraph.get_startnodes_from", "TraceManager.clear_with_descs",
                           "ReferenceGraph.remove_with_referred", "NonThreadedExecutor.eval_node"])
-    prop("C08", EXECUTOR + ["CellsImpl.has_node", "TraceGraph.get_nodes_with", "TraceGraph.remove_with_descs", "TraceManager.clear_with_descs"])
+    prop("C08", EXECUTOR + ["CellsImpl.has_node", "TraceGraph.get_nodes_with", "TraceGraph.remove_with_descs", "TraceManager.clear_with_descs",
+                            "CellsImpl.clear_all_values", "BaseSpaceImpl.on_delete"])
+    prop("C13", ["BaseSpaceImpl.on_delete", "CellsImpl.clear_all_values", "CellsImpl.clear_value_at", "TraceManager.clear_obj",
+                 "TraceManager.clear_with_descs", "TraceGraph.clear_obj"],
+         assumptions=["Impl.on_delete (null-impl handles), DynamicSpaceImpl/DynamicBase/UserSpaceImpl.on_delete, SpaceUpdater.del_defined_space and the "
+                      "re-derivation of subs are covered by the bounded driver only"])
     prop("C09", ["CallStack.append", "CallStack.pop", "NonThreadedExecutor.eval_node", "CellsImpl.on_eval_formula",
-                 "CellsImpl.clear_all_values", "CellsImpl.on_namespace_change",
+                 "CellsImpl.clear_all_values", "CellsImpl.on_namespace_change", "UserCellsImpl.on_set_property",
                  "TraceGraph.clear_obj", "TraceGraph.get_nodes_with", "TraceManager.clear_obj", "TraceManager.clear_attr_referrers"])
     prop("C17", ["CallStack.rollback", "CallStack.pop", "NonThreadedExecutor._eval_formula", "NonThreadedExecutor._start_exec"])
 
